@@ -10,6 +10,8 @@ import Mathlib.Data.List.Basic
 
 set_option linter.unusedSimpArgs false
 set_option linter.unusedVariables false
+set_option linter.unusedTactic false
+set_option linter.unreachableTactic false
 
 namespace Atomman.C03
 open List
